@@ -264,14 +264,15 @@ def source(cmd, who=0):
     raise ValueError(cmd)
 
 
-def observe(it, src):
+def observe(it, src, env=None):
     """(kind, value-as-model, stdout, message)"""
     from ckl.errors import CklRuntimeError, CklSyntaxError
     out = io.StringIO()
     it.setStandardOutput(out)
     try:
         with time_limit(10):
-            v = it.interpret(src, "sess.ckl")
+            v = it.interpret(src, "sess.ckl") if env is None else \
+                it.interpret(src, "sess.ckl", env)
         if v.isFunc():
             return ("func", None, out.getvalue(), "")
         return ("value", cklrun.to_model(v), out.getvalue(), "")
@@ -360,6 +361,8 @@ def run_history(history, instances=2):
 
 
 def prop(case):
+    if case.get("kind") == "hostenv":
+        return hostenv_prop(case["states"], case["mode"])
     if case.get("kind") == "residue":
         return residue_prop(case["states"],
                             [tuple(x) for x in case["fails"]])
@@ -633,6 +636,74 @@ def residue_prop(states, fails):
     return None
 
 
+HOST_ENV_MODES = ["reuse", "session", "child", "two-interpreters"]
+HOST_ENV_EXTRA = ["undefined_zz", "require Math; Math->PI",
+                  "require nosuch_module", "length([1, 2])",
+                  "def hq(x) x + q0; hq(1)", "secret_zz"]
+
+
+def hostenv_prop(states, mode):
+    """The environment parameter of interpret(): a session held in an
+    environment object of the host, handed in again for every call, behaves
+    like the interpreter's own session."""
+    from ckl.interpreter import Interpreter
+    from ckl.functions import get_none_environment
+    scratch_home()
+    cmds = [RES_STATE[k] if k >= 0 else HOST_ENV_EXTRA[-k - 1]
+            for k in states]
+    ref_it = Interpreter(False, False)
+    ref = [repr(observe(ref_it, c)) for c in cmds]
+    it = Interpreter(False, False)
+    it2 = Interpreter(False, False) if mode == "two-interpreters" else None
+    env = {"reuse": get_none_environment, "two-interpreters":
+           get_none_environment, "session": lambda: it.environment,
+           "child": lambda: it.environment.newEnv()}[mode]()
+    text = " ;; ".join(cmds)
+    for k, c in enumerate(cmds):
+        got = repr(observe(it, c, env))
+        if got != ref[k]:
+            return Finding(f"C10|host-environment|{mode}|result-differs",
+                           f"{text}: call {k + 1} ({c!r}) with the same "
+                           f"environment object handed in gives {got}, a "
+                           f"plain session gives {ref[k]}")
+        if it2 is not None:
+            # another interpreter is handed the same object in between: it
+            # sees the object's own names, and afterwards neither interpreter
+            # may see the other's session
+            observe(it2, "1", env)
+    if it2 is not None:
+        for probe_it, name in ((it2, "first"), (it, "second")):
+            leak = observe(probe_it, "secret_zz")
+            if leak[0] != "error":
+                return Finding("C10|host-environment|two-interpreters|leak",
+                               f"{text}: secret_zz of the {name} interpreter "
+                               f"is visible in the other: {leak[:2]!r}")
+        observe(it, "def secret_zz = 1")
+        leak = observe(it2, "secret_zz")
+        if leak[0] != "error":
+            return Finding("C10|host-environment|two-interpreters|leak",
+                           f"{text}: a definition made in one interpreter's "
+                           f"session is visible in the other after both were "
+                           f"handed the same environment object")
+    return None
+
+
+def part_hostenv(part, n):
+    def body(tape):
+        ch = TapeChooser(tape)
+        mode = ch.choice(HOST_ENV_MODES)
+        ln = ch.int(2, 8)
+        states = [ch.int(0, len(RES_STATE) - 1) if ch.bool(0.7)
+                  else -ch.int(1, len(HOST_ENV_EXTRA)) for _ in range(ln)]
+        part.count()
+        part.nontriv((mode, tuple(states)))
+        part.cls("host-environment:" + mode, None)
+        f = hostenv_prop(states, mode)
+        if f:
+            return f, {"kind": "hostenv", "states": states, "mode": mode}
+    part.hyp(tapes(64), body, n)
+
+
 def part_residue(part, n):
     def body(tape):
         ch = TapeChooser(tape)
@@ -676,6 +747,7 @@ def parts(tier, seed):
                 {"length": 3, "shard": i, "nshards": 4}) for i in range(4)]
         ps += [("residue-each", part_residue_each, {})]
         ps += [(f"residue-{i}", part_residue, {"n": 150}) for i in range(4)]
+        ps += [(f"hostenv-{i}", part_hostenv, {"n": 150}) for i in range(2)]
     else:
         ps = [(f"exh5-{i}", part_exhaustive,
                {"length": 5, "shard": i, "nshards": 16}) for i in range(16)]
@@ -685,4 +757,5 @@ def parts(tier, seed):
                 {"length": 4, "shard": i, "nshards": 8}) for i in range(8)]
         ps += [("residue-each", part_residue_each, {})]
         ps += [(f"residue-{i}", part_residue, {"n": 4000}) for i in range(8)]
+        ps += [(f"hostenv-{i}", part_hostenv, {"n": 3000}) for i in range(4)]
     return ps
